@@ -201,6 +201,12 @@ func (rw *Rewriter) Visit(node sql.Node) (w sql.Visitor, n sql.Node, err error) 
 		// NO random() rewriting past this point.
 		rw.orderedBy = true
 		return rw, node, nil
+	case *sql.SelectStatement:
+		n.LimitExpr, n.OffsetExpr, n.Offset, n.OffsetComma =
+			limitOffset(n.LimitExpr, n.OffsetExpr, n.Offset, n.OffsetComma)
+	case *sql.DeleteStatement:
+		n.LimitExpr, n.OffsetExpr, n.Offset, n.OffsetComma =
+			limitOffset(n.LimitExpr, n.OffsetExpr, n.Offset, n.OffsetComma)
 	case *sql.Null, sql.SelectExpr, *sql.WithClause:
 		// sql.Walk does not descend into these nodes.
 		retNode, err = rw.walkChildren(n)
@@ -299,6 +305,16 @@ func (rw *Rewriter) walkChildren(node sql.Node) (sql.Node, error) {
 		}
 	}
 	return node, nil
+}
+
+// limitOffset turns the "LIMIT offset, limit" form of a LIMIT clause into
+// "LIMIT limit OFFSET offset", which is the only form the statement can be
+// rendered in. Without this the two expressions would change places.
+func limitOffset(limit, offset sql.Expr, offsetPos, commaPos sql.Pos) (sql.Expr, sql.Expr, sql.Pos, sql.Pos) {
+	if !commaPos.IsValid() || offset == nil {
+		return limit, offset, offsetPos, commaPos
+	}
+	return offset, limit, commaPos, sql.Pos{}
 }
 
 func (rw *Rewriter) VisitEnd(node sql.Node) (sql.Node, error) {
